@@ -65,6 +65,34 @@ def data_scenario(pid, i, rng, tier, route=None, window=False, fail=False):
     return p
 
 
+def narrowcast_programs(pid, rng):
+    """Integer data cast to a narrower integer type with values outside its range (numpy wraps them: that is the declared
+    cast, whatever the source kind), written from every source kind; the files are equal."""
+    progs = []
+    combos = [('int32', 'int16'), ('int32', 'uint8'), ('uint32', 'int8'), ('int16', 'uint8'), ('uint16', 'int8'), ('int32', 'uint16')]
+    for i, (src, cast) in enumerate(combos):
+        p = Prog(f'{pid}-narrowcast-{i}', {'kind': 'narrowcast', 'src': src, 'cast': cast})
+        info = np.iinfo(src)
+        vals = np.array([1, 2, 70000 % (info.max + 1), info.max, info.min if info.min else 40000 % (info.max + 1), 300, 129, 255], dtype=src)
+        a2 = np.stack([vals, vals[::-1]], axis=1)
+        ixd = np.arange(len(vals), dtype='float64')
+        for fid, route in enumerate(['h5', 'dict', 'struct', 'inline'], start=1):
+            p.file(fid, vrl=256)
+            lf = p.lf(fid, lf=fid, fh_id='NARROW')
+            p.origin(lf, name='O')
+            if route == 'inline':
+                ix, c1, c2 = p.channel(lf, 'IX', data=ixd), p.channel(lf, 'S', data=vals, cast=cast), p.channel(lf, 'M', data=a2, cast=cast)
+                arrs = {}
+            else:
+                ix, c1, c2 = p.channel(lf, 'IX'), p.channel(lf, 'S', cast=cast), p.channel(lf, 'M', cast=cast)
+                arrs = {ix: p.array(ixd), c1: p.array(vals), c2: p.array(a2)}
+            p.frame(lf, 'FR', [ix, c1, c2])
+            p.write(fid, route='none' if route == 'inline' else route, data_arrays=arrs, fname=f'o{fid}.dlis', in_chunk=[None, 3][i % 2],
+                    **({'from': 1, 'to': 7} if i % 3 == 2 else {}))
+        progs.append(p.build())
+    return progs
+
+
 def gen_C03(tier, seed):
     rng = rng_for('C03', tier, seed)
     n = 120 if tier == 'quick' else 2500
@@ -125,6 +153,7 @@ def gen_C03(tier, seed):
             p.frame(lf, 'FR', chans)
             p.write(1, route='none' if route == 'inline' else route, data_arrays=arrs, in_chunk=[None, 3][k % 2])
             progs.append(p.build())
+    progs += narrowcast_programs('C03', rng)
     # the dtype a channel is written with: derived from the data of each write unless the user pinned one (before the
     # first write, between two writes -- also to the very dtype derived before -- or cleared it again)
     dts = ['float32', 'float64', 'int16', 'uint8', 'int32']
@@ -341,6 +370,17 @@ def gen_C08(tier, seed):
         p.frame(lf, 'FR', [ix, ch])
         p.write(1, route='none' if route == 'inline' else route, data_arrays=arrs)
         progs.append(p.build())
+    # cast dtype, DIMENSION and ELEMENT-LIMIT all given by the user, the dimension wrong for the data: refused, or consistent
+    for v, (shape, dim, lim, cast) in enumerate([((4, 4), [5], [5], 'float32'), ((4,), [3], [3], 'float64'), ((4, 2), [2], [2], 'float32'),
+                                                 ((4, 3), [3], [8], 'int32'), ((4, 3), [2], [4], 'float64'), ((4, 1), [1], [1], 'uint8')]):
+        p = Prog(f'C08-allgiven-{v}', {'kind': 'allgiven', 'fringe': True, 'shape': list(shape), 'dim': dim})
+        lf, _ = base_lf(p)
+        a = ((np.arange(int(np.prod(shape))).reshape(shape) * 3 + v) % 100).astype('float64' if cast.startswith('float') else 'int32')
+        ix = p.channel(lf, 'IX', data=np.arange(4, dtype='float64'))
+        ch = p.channel(lf, 'CH', data=a, cast=cast, dimension=L(*[I(x) for x in dim]), element_limit=L(*[I(x) for x in lim]))
+        p.frame(lf, 'FR', [ix, ch])
+        p.write(1, valid=False, either=True)
+        progs.append(p.build())
     # one frame listing two channels of one name (copy numbers 0 and 1, different shapes and dtypes), or the same channel twice:
     # refused, or every record is as long as the descriptors say
     for v in range(4):
@@ -435,6 +475,20 @@ def gen_C04(tier, seed):
             p.set(tool, 'channels', L(R(c3)))
             p.set(org, 'programs', L(*more_t[:1]))
         p.write(1, fname='second.dlis')
+        progs.append(p.build())
+    # value lists without a common representation code (text and number, booleans), one element longer than 127 characters:
+    # refused, or encoded so that the component grammar still holds
+    long = 'X' * 130
+    for k, vals in enumerate([[S('N/A'), F(12.5)], [S(long), F(12.5)], [F(1.0), S(long)], [BOOL(True), S(long)], [S(long), I(3), S('b')]]):
+        p = Prog(f'C04-nocommoncode-{k}', {'kind': 'nocommoncode', 'fringe': True})
+        lf, _ = base_lf(p)
+        c = p.channel(lf, 'CH', data=np.arange(3, dtype='float64'))
+        p.frame(lf, 'FR', [c])
+        p.add(lf, 'axis', 'AX', coordinates=L(*vals))
+        z = [p.add(lf, 'zone', f'Z{j}') for j in range(len(vals))]
+        p.add(lf, 'parameter', 'PAR', zones=L(*[R(x) for x in z]), values=L(*vals))
+        p.add(lf, 'comment', 'AFTER', text=L(S('an object after the doubtful ones')))
+        p.write(1, valid=False, either=True)
         progs.append(p.build())
     progs += attr_programs('C04')
     return progs
@@ -605,6 +659,24 @@ def gen_C05(tier, seed):
         p.add(lf, 'tool', 'TOOL', channels=TUP(R(c)), parts=TUP())
         p.add(lf, 'comment', 'COM', text=TUP(S('a'), S('b')))
         p.write(1, valid=False, either=True)
+        progs.append(p.build())
+    # attributes the library fills in on its own (FILE-ID of every origin) assigned by the user instead, several writes
+    for i in range(3):
+        p = Prog(f'C05-ownfileid-{i}', {'kind': 'ownfileid'})
+        p.file(1)
+        lf = p.lf(1, fh_id='MAIN HEADER ID')
+        o1 = p.origin(lf, name='DEFINING')
+        o2 = p.origin(lf, name='SECOND', fsn=2)
+        c = p.channel(lf, 'CH', data=np.arange(3, dtype='float64'))
+        p.frame(lf, 'FR', [c])
+        if i == 2:
+            p.write(1, fname='before.dlis')
+        p.set(o2, 'file_id', S('SIDETRACK 2 ACQUISITION'))
+        if i == 1:
+            p.set(o2, 'field_name', S('A FIELD'))
+        p.write(1, fname='first.dlis')
+        p.write(1, fname='second.dlis')
+        p.write(1, fname='third.dlis')
         progs.append(p.build())
     # FRAME ENCRYPTED takes booleans, 0/1 numbers and yes/no words
     for i, v in enumerate([BOOL(True), BOOL(False), I(1), F(0.0), NOJ(S('yes')), NOJ(S('F')), NOJ(S('maybe')), NOJ(I(2))]):
@@ -782,6 +854,24 @@ def gen_C07(tier, seed):
         c2 = p.channel(lf, 'CH-DEFAULT', data=np.arange(3, dtype='float64'))
         p.frame(lf, 'FR-EXPLICIT', [c1], origin_reference=7)
         p.frame(lf, 'FR-DEFAULT', [c2])
+        p.write(1)
+        progs.append(p.build())
+    # typed references (OBJREF) to objects that live in named sets, in one and in two logical files
+    for i in range(3):
+        p = Prog(f'C07-namedsetrefs-{i}', {'kind': 'namedsetrefs'})
+        p.file(1)
+        for k in range(1 + i % 2):
+            lf = p.lf(1, lf=k + 1, fh_id=f'LF{k}', fh_seq=k + 1)
+            sn = f'NAMED-{k}'
+            p.origin(lf, name=f'O{k}', fsn=k + 1, set_name=sn)
+            a = p.channel(lf, 'A', data=np.arange(3, dtype='float64'), set_name=sn)
+            tl = p.add(lf, 'tool', 'TOOL', set_name=sn, channels=L(R(a)))
+            z = p.add(lf, 'zone', 'Z', set_name=sn if i < 2 else None)
+            b = p.channel(lf, 'B', data=np.arange(3, dtype='float64'), set_name=sn, source=R(tl))
+            p.frame(lf, 'FR', [a, b], set_name=sn)
+            p.add(lf, 'group', 'G', set_name=sn, object_list=L(R(a), R(z), R(tl)))
+            p.add(lf, 'computation', 'COMP', set_name=sn, source=R(a))
+            p.add(lf, 'calibration_measurement', 'CM', set_name=sn, measurement_source=R(b))
         p.write(1)
         progs.append(p.build())
     # an object renamed to a name another object of its set already has: identities stay distinct, references keep their target
@@ -975,6 +1065,7 @@ def gen_C11(tier, seed):
                 p.write(fid, route='none' if route in ('inline', 'presliced') else route, data_arrays=arrs, extras=extras,
                         perm=perm, fname=f'out{fid}.dlis', **opts)
             progs.append(p.build())
+    progs += narrowcast_programs('C11', rng)
     # pathlib.Path objects for the output file and the HDF5 source
     for i in range(2):
         p = Prog(f'C11-paths-{i}', {'kind': 'paths'})
@@ -1119,6 +1210,24 @@ def gen_C13(tier, seed):
                         opts = {'from': 1, 'to': len(s)}
                     p.write(1, **opts)
                     progs.append(p.build())
+    # the caller changes its inline arrays in place between two writes (same window): the statistics are those of the rows written
+    for i in range(4 if tier == 'quick' else 16):
+        p = Prog(f'C13-inplace-{i}', {'kind': 'inplace'})
+        lf, _ = base_lf(p)
+        first = np.array([1000, 1001, 1002, 1003, 1004, 1005], dtype='float64')
+        second = np.array([2473, 2470, 2460, 2455, 2441, 2400], dtype='float64') if i % 2 == 0 else np.array([10, 13, 16, 19, 22, 25], dtype='float64')
+        ia = p.array(first)
+        idx = p.channel(lf, 'INDEX', data=ia)
+        oth = p.channel(lf, 'OTHER', data=rand_array(rng, 'int16', 6))
+        fr = p.frame(lf, 'FR', [idx, oth], **({'index_type': EN('FrameIndexType', 'BOREHOLE_DEPTH')} if i < 3 else {}))
+        kw = {'from': 1, 'to': 5} if i % 4 >= 2 else {}
+        p.write(1, fname='w1.dlis', **kw)
+        p.mutate_array(ia, second)
+        p.write(1, fname='w2.dlis', **kw)
+        if i == 3:
+            p.set(fr, 'index_type', EN('FrameIndexType', 'BOREHOLE_DEPTH'))
+            p.write(1, fname='w3.dlis', **kw)
+        progs.append(p.build())
     # several frames in one write (one logical file, or one frame in each of two logical files), indexed and row-numbered:
     # every frame carries the statistics of its own rows
     for i in range(6 if tier == 'quick' else 30):
@@ -1368,6 +1477,27 @@ def gen_C18(tier, seed):
                                 p.add(lf, cls, f'EXTRA-{cls}-{n}'.upper(), set_name=sn)
                     p.write(1, valid=False, either=True)
                     progs.append(p.build())
+    # the empty string as a set name next to the default (None) set of the same class, in one logical file or in two
+    for i in range(4):
+        p = Prog(f'C18-emptysetname-{i}', {'kind': 'emptysetname', 'fringe': True})
+        p.file(1)
+        for k in range(1 + i % 2):
+            lf = p.lf(1, lf=k + 1, fh_id=f'LF{k}', fh_seq=k + 1)
+            sn = f'OWN-{k}'
+            p.origin(lf, name=f'O{k}', fsn=k + 1, set_name=sn)
+            c = p.channel(lf, f'CH{k}', data=np.arange(3, dtype='float64'), set_name=sn)
+            p.frame(lf, f'FR{k}', [c], set_name=sn)
+            if k == 0:
+                first, second = ('', None) if i < 2 else (None, '')
+                p.add(lf, 'zone', 'Z-ONE-A', set_name=first, description=S('first'))
+                st = p.add(lf, 'zone', 'Z-ONE-B', description=S('second'))
+                if second == '':
+                    p.steps[-1]['set_name'] = ''
+                p.add(lf, 'parameter', 'P-ONE', set_name=sn)
+            else:
+                p.add(lf, 'zone', 'Z-TWO', description=S('of the second logical file'))      # default set: shared with LF0's None set
+        p.write(1, valid=False, either=True)
+        progs.append(p.build())
     # one channel set per frame, the same channel names in each (distinguished by their origins): every frame has its own rows
     for i in range(6 if tier == 'quick' else 40):
         p = Prog(f'C18-framesets-{i}', {'kind': 'framesets'})
